@@ -80,6 +80,12 @@ pub fn rand_name(rng: &mut Rng, prefix: &str) -> String {
     if rng.chance(1, 5) {
         s.push_str(*rng.pick(&["[3]", "<12>", ".x", "/y", "!", "$", "[0]", "__a"]));
     }
+    // names that look almost like numbers: digits and underscores only (bus bits, grid coordinates: 7_0, 1_2), digits then letters (18T)
+    if prefix.is_empty() || rng.chance(1, 25) {
+        if rng.chance(1, 2) {
+            return format!("{}_{}", rng.below(100), rng.below(100));
+        }
+    }
     s
 }
 pub fn rand_dec(rng: &mut Rng) -> Dec {
@@ -132,6 +138,10 @@ fn rand_strlit(rng: &mut Rng, cfg: &LefCfg) -> String {
             *rng.pick(b"abcXYZ019 _-./:") as char
         };
         s.push(c);
+        // a literal may run over several lines, with either line-ending convention inside the quotes
+        if cfg.hostile_strings && rng.chance(1, 30) {
+            s.push_str(*rng.pick(&["\n", "\r\n", "\r\n  ", "\n\n"]));
+        }
         if long && rng.chance(1, 40) {
             s.push_str(*rng.pick(&["  ", "   ", " \t ", "    "]));
         }
@@ -375,7 +385,12 @@ pub fn rand_lef(rng: &mut Rng, cfg: &LefCfg) -> GenLef {
     let old = has_version && minor <= 4;
     let mut lib = LefLibrary::new();
     if has_version {
-        lib.version = Some(dec(50 + minor, 1));
+        // usually MAJOR.MINOR; now and then with trailing zeros (5.80, 5.700): a number like any other, kept as written
+        lib.version = Some(match rng.below(8) {
+            0 => dec((50 + minor) * 10, 2),
+            1 => dec((50 + minor) * 100, 3),
+            _ => dec(50 + minor, 1),
+        });
     }
     if old && rng.chance(1, 2) {
         lib.names_case_sensitive = Some(pick_t(rng, t_onoff()));
@@ -575,10 +590,12 @@ pub struct Style {
     /// omit END LIBRARY when the version permits (>= 5.6)
     pub omit_end_library: bool,
     pub crlf: bool,
+    /// also write a SITE ROWPATTERN statement (legal LEF that the reader documents as unsupported: it refuses the library)
+    pub rowpattern: bool,
 }
 impl Style {
     pub fn plain() -> Self {
-        Style { mixed_case_keywords: false, comments: false, nonascii_comments: false, wild_whitespace: false, alt_decimals: false, permute: false, omit_end_library: false, crlf: false }
+        Style { mixed_case_keywords: false, comments: false, nonascii_comments: false, wild_whitespace: false, alt_decimals: false, permute: false, omit_end_library: false, crlf: false, rowpattern: false }
     }
     pub fn random(rng: &mut Rng) -> Self {
         Style {
@@ -590,6 +607,7 @@ impl Style {
             permute: rng.bool(),
             omit_end_library: rng.bool(),
             crlf: rng.chance(1, 8),
+            rowpattern: false,
         }
     }
 }
@@ -1233,6 +1251,18 @@ impl<'r> Renderer<'r> {
             r.semi();
             r.eol();
         }));
+        if self.style.rowpattern {
+            let other = s.name.clone();
+            v.push(Box::new(move |r| {
+                r.kw("ROWPATTERN");
+                r.tok(&other);
+                r.kw("N");
+                r.tok(&other);
+                r.kw("FS");
+                r.semi();
+                r.eol();
+            }));
+        }
         self.stmts(v);
         self.kw("END");
         self.tok(&s.name);
@@ -1327,8 +1357,8 @@ impl<'r> Renderer<'r> {
         }
         if let Some(v) = &lib.version {
             self.kw("VERSION");
-            // the version is spelled canonically: MAJOR.MINOR
-            self.tok(&v.normalize().to_string());
+            // the version is spelled as the value has it (MAJOR.MINOR, or with the trailing zeros it was given)
+            self.tok(&v.to_string());
             self.semi();
             self.eol();
         }
